@@ -94,13 +94,16 @@ static void run_seq(void)
 	rcu_register_thread();
 	VRT_CHECK(rcu_defer_register_thread() == 0, "rcu_defer_register_thread failed");
 	for (i = 0; i < len; i++) {
-		int c = vrt_choose(3 * 4 + 2);
+		int c = vrt_choose(3 * 4 + 3);
 
 		if (c < 12) {
 			do_defer(0, c / 4, args_seq[c % 4]);
 		} else if (c == 12) {
 			BLOCKING(rcu_defer_barrier());
 			check_log("seq/barrier", 0, 1);
+		} else if (c == 14) {
+			BLOCKING(rcu_defer_barrier_thread());	/* the calling thread's own queue only */
+			check_log("seq/barrier_thread", 0, 1);
 		} else {
 			BLOCKING(rcu_defer_unregister_thread());
 			check_log("seq/unregister", 0, 1);
@@ -223,6 +226,11 @@ static void *owner2(void *a)
 	rcu_defer_register_thread();
 	do_defer(1, 0, (void *)0x1008);
 	do_defer(1, 1, (void *)0x2008);
+	if (vrt_param("barrier_thread", 0)) {
+		BLOCKING(rcu_defer_barrier_thread());
+		check_log("two_owners/barrier_thread", 1, 1);
+		do_defer(1, 0, (void *)0x3008);
+	}
 	rcu_defer_unregister_thread();	/* must run both before returning */
 	check_log("two_owners/unregister", 1, 1);
 	rcu_unregister_thread();
